@@ -35,8 +35,10 @@ import (
 	"sort"
 	"strings"
 	"testing"
+	"time"
 
 	"github.com/tikv/pd/pkg/mock/mockcluster"
+	"github.com/tikv/pd/server/core"
 	"github.com/tikv/pd/server/schedule/operator"
 	"github.com/tikv/pd/server/schedule/placement"
 	"pdverif/livesrv"
@@ -287,6 +289,91 @@ type live struct {
 	ctx    context.Context
 	sims   map[uint64]*simkit.Region
 	order  []uint64 // region ids in spec order
+	// spec: this execution's own copy of the cluster spec; store events change it
+	// (the oracle judges every operator against the spec as it is when the operator is produced)
+	spec simkit.ClusterSpec
+}
+
+// StoreEvent changes the heartbeat state of stores in the middle of a case, AFTER
+// the scatterer / scheduler object has been used at least once (At >= 1).
+//
+//	silent  last heartbeat := time.Now() - 20 s - 5 ms: disconnected from this moment on under
+//	        the real clock (time only moves forward), while relative to any instant captured
+//	        5 ms or more earlier the store still looks connected
+//	down    last heartbeat := time.Now() - max-store-down-time - 5 ms: down likewise
+//	revive  the store heart-beats again (last heartbeat := time.Now())
+type StoreEvent struct {
+	At     int    `json:"at"`   // before the At-th call (scatter) / round (sched), At >= 1
+	Kind   string `json:"kind"` // silent | down | revive
+	Stores []int  `json:"stores"`
+}
+
+func genStoreEvents(t *rapid.T, nStores, steps int) []StoreEvent {
+	if steps < 2 || !simkit.Pct(t, 45, "storeEvents") {
+		return nil
+	}
+	var out []StoreEvent
+	n := simkit.IntU(t, 1, 2, "nEvents")
+	for i := 0; i < n; i++ {
+		ev := StoreEvent{At: simkit.IntU(t, 1, steps-1, "eventAt"),
+			Kind: simkit.Pick(t, []string{"silent", "silent", "silent", "down", "down", "revive"}, "eventKind")}
+		k := simkit.IntU(t, 1, 2, "eventStores")
+		ev.Stores = rapid.Permutation(idx(nStores)).Draw(t, "eventStoreIdx")[:min(k, nStores)]
+		out = append(out, ev)
+	}
+	return out
+}
+
+// applyEvents applies the events scheduled before step `at` to the mock cluster and to
+// the execution's spec. It returns how many stores went from connected to silent/down.
+func (l *live) applyEvents(evs []StoreEvent, at int) int {
+	const eps = 5 * time.Millisecond
+	fell := 0
+	for _, ev := range evs {
+		if ev.At != at {
+			continue
+		}
+		for _, i := range ev.Stores {
+			if i < 0 || i >= len(l.spec.Stores) {
+				continue
+			}
+			sp := &l.spec.Stores[i]
+			st := l.mc.GetStore(sp.ID)
+			if st == nil {
+				continue
+			}
+			maxDown := l.spec.MaxStoreDownTimeSec
+			if maxDown <= 0 {
+				maxDown = simkit.DefaultMaxStoreDownTimeSec
+			}
+			var ts time.Time
+			switch ev.Kind {
+			case "silent":
+				if sp.HeartbeatAgeSec > simkit.DisconnectAfterSec {
+					continue // silent already
+				}
+				ts = time.Now().Add(-simkit.DisconnectAfterSec*time.Second - eps)
+				sp.HeartbeatAgeSec = simkit.AgeDisconnected
+				fell++
+			case "down":
+				if sp.HeartbeatAgeSec > maxDown {
+					continue
+				}
+				if sp.HeartbeatAgeSec <= simkit.DisconnectAfterSec {
+					fell++
+				}
+				ts = time.Now().Add(-time.Duration(maxDown)*time.Second - eps)
+				sp.HeartbeatAgeSec = maxDown + 60
+			case "revive":
+				ts = time.Now()
+				sp.HeartbeatAgeSec = simkit.AgeFresh
+			default:
+				continue
+			}
+			l.mc.PutStore(st.Clone(core.SetLastHeartbeatTS(ts)))
+		}
+	}
+	return fell
 }
 
 // errUnsound: the case data is not a sound input (only a hand-edited or stale
@@ -312,7 +399,8 @@ func build(w *World) (*live, error) {
 	}
 	ctx, cancelCtx := context.WithCancel(context.Background())
 	mc, cancel := simkit.Build(ctx, w.Cluster)
-	l := &live{w: w, mc: mc, ctx: ctx, sims: map[uint64]*simkit.Region{}}
+	l := &live{w: w, mc: mc, ctx: ctx, sims: map[uint64]*simkit.Region{}, spec: w.Cluster}
+	l.spec.Stores = append([]simkit.StoreSpec(nil), w.Cluster.Stores...)
 	l.cancel = func() { cancel(); cancelCtx() }
 	if w.TiFlashLearners > 0 {
 		if mc.RuleManager == nil {
